@@ -96,6 +96,18 @@ PROPS = {
                                                 "sm2.decrypt/offcurve", "sm2.decrypt/x+p", "sm2.decrypt/nonresidue", "sm2.decrypt/valid-small-x"]})],
         assumptions=["SM2.tla transcribes GB/T 32918.4 and the SEC1 point decoding rules"],
     ),
+    "C15": dict(
+        level="model_checking",
+        rule="sessions = key agreement runs (4 steps) on real keys; every step event is judged from its logged inputs; distinct = distinct (keys, ephemerals, tamper subset/kind, klen); "
+             "non-trivial = all step events; model states = MC_SM2Kex (toy group, every key pair / ephemeral / tamper choice)",
+        models=[dict(module="AnchorSM2", anchor=True, workers=1, about="SM2.tla reproduces the GM/T 0003.5 Annex key agreement values K, S_B, S_A"),
+                dict(module="MC_SM2Kex", about="toy group Z_7: all keys, ephemerals and tamper choices: honest => both accept and agree; acceptance => authentic; invalid ephemeral => receiver fails"),
+                dict(module="MC_SM2Kex", cfg="MC_SM2Kex_neg", expect="violation", about="negative: a validity test that accepts the point at infinity must be refuted")],
+        stages=[dict(suite="sm2kex", trace="TraceSM2", plan=dict(module="PlanKex"),
+                     required_classes={"both": ["kx.step2/step2.none", "kx.step3/step3.none", "kx.step4/step4.none", "kx.step2/step2.offcurve", "kx.step2/step2.infinity",
+                                                "kx.step3/step3.bitflip", "kx.step4/step4.other", "kx.step2/step2.rerand"]})],
+        assumptions=["SM2.tla transcribes GB/T 32918.3 with w = 127 and one-byte tags (GM/T 0003.5 Annex values as ASSUMEs)"],
+    ),
 }
 
 # what MANIFEST.json says about each claimed check
@@ -171,6 +183,14 @@ MANIFEST_TEXT["C06"] = dict(
     note="Trusted: as C03.",
     technique="fault enumeration with TLA+ trace validation (TLC) and specification-crafted invalid-curve ciphertexts",
 )
+MANIFEST_TEXT["C15"] = dict(
+    text="The agreement is specified as four actions with a channel adversary. E1: on a toy group every key pair, ephemeral pair and tamper choice is explored (MC_SM2Kex: honest => both "
+         "accept and agree; acceptance => everything received was authentic; invalid ephemeral point => receiver fails; negative control). At real size TLC enumerates all 16 subsets of "
+         "{RA,RB,SB,SA} x 5 tamper kinds (PlanKex); the driver runs each on real keys under the RNG hook and every step is judged from its logged inputs against GB/T 32918.3 "
+         "(w = 127, one-byte tags): exact K, S_B, S_A on honest runs (klen 1..200, the GM/T 0003.5 Annex example with scripted rA, rB), rejection otherwise.",
+    note="Trusted: as C03 (GM/T 0003.5 Annex key agreement values as ASSUMEs), the Exchange state accessor hook.",
+    technique="TLC exhaustive protocol model with channel adversary + TLA+ trace validation of TLC-planned tamper runs at real parameters",
+)
 
 NOT_APPLICABLE = {
     "C09": "machinery for this property is not built yet in this round (specification module in progress); not claimed until its check is sound",
@@ -179,7 +199,6 @@ NOT_APPLICABLE = {
     "C12": "machinery for this property is not built yet in this round (specification module in progress); not claimed until its check is sound",
     "C13": "machinery for this property is not built yet in this round (specification module in progress); not claimed until its check is sound",
     "C14": "machinery for this property is not built yet in this round (specification module in progress); not claimed until its check is sound",
-    "C15": "machinery for this property is not built yet in this round (specification module in progress); not claimed until its check is sound",
     "C16": "machinery for this property is not built yet in this round (specification module in progress); not claimed until its check is sound",
     "C17": "machinery for this property is not built yet in this round (specification module in progress); not claimed until its check is sound",
     "C19": "machinery for this property is not built yet in this round (specification module in progress); not claimed until its check is sound",
